@@ -44,6 +44,7 @@ def main(argv=None):
     except ImportError:
         print(f"ANALYSIS-ERROR property={prop}: no check module")
         return 2
+    rep = None
     try:
         repo = Repo()
         rep = Report(prop, args.tier, seed, only)
@@ -51,6 +52,10 @@ def main(argv=None):
         return rep.finish(repo)
     except AnalysisError as e:
         print(f"ANALYSIS-ERROR property={prop}: {e}")
+        # violations already established before the analysis broke are still reported (exit 1); otherwise exit 2
+        if rep is not None and rep.has_new_violations():
+            rc = rep.finish(repo, partial=str(e))
+            return rc if rc == 1 else 2
         return 2
     except Exception:
         traceback.print_exc()
